@@ -25,9 +25,10 @@ def contracts(tier):
 
 def extra_obligations(tier):
     from contracts import hierarchical
-    return [solve.custom_result('hierarchical:HSpace[cache-invalidation]', hierarchical.F, 'HSpace.refine / _clear_cache', hierarchical.cache_invalidation_obligations),
+    _pu = solve.custom_result('paramuse:C05', 'pyiga/hierarchical.py', 'all functions', __import__('pyvc.paramuse', fromlist=['x']).obligations(['pyiga/hierarchical.py', 'pyiga/bspline.py', 'pyiga/utils.py'], 'paramuse'))
+    _r = [solve.custom_result('hierarchical:HSpace[cache-invalidation]', hierarchical.F, 'HSpace.refine / _clear_cache', hierarchical.cache_invalidation_obligations),
             solve.custom_result('hierarchical:basis-flag', hierarchical.F, 'represent_fine / coeffs_to_levelwise_funcs / grid_eval / HSplineFunc', hierarchical.basis_flag_obligations)]
-
+    return list(_r) + [_pu]
 
 MANIFEST = {
     'category': 'other',
